@@ -123,6 +123,15 @@ func runC12(c *Ctx) {
 					}
 				}
 			}
+			// subjects that share a prefix and go on with a dot, or with a character that sorts BEFORE the dot (blank ! " #
+			// $ % & ' ( ) * + , -): the order Encode gives the lists is the order of the subjects as plain texts
+			if ac, ok := cl.(*jwt.AccountClaims); ok && i%4 == 1 {
+				fam := []string{"orders.new", "orders-eu.new", "orders.new.eu", "orders*.x", "orders$1.x", "orders.", "orders", "orders!.x", "orders x.y", "orders,x", "orders+.x", "orders/x", "orders.-", "orders-"}
+				for _, k := range permute(c.Rng, len(fam)) {
+					ac.Exports = append(ac.Exports, &jwt.Export{Subject: jwt.Subject(fam[k]), Type: jwt.Stream})
+					ac.Imports = append(ac.Imports, &jwt.Import{Subject: jwt.Subject(fam[k]), Account: kr.by["account"].pub, Type: jwt.Stream})
+				}
+			}
 			// text that is not valid UTF-8 (a Latin-1 name, stray bytes) is the caller's content too: Encode may write what
 			// it likes into the token, the object stays as it was (these objects are not sent to the Coq model)
 			if i >= perKindCoq && i%5 == 2 {
